@@ -1438,6 +1438,7 @@ func runSL(c SLCase, o *vh.Obs) *vh.Failure {
 	}
 	defer os.RemoveAll(dir)
 	path := filepath.Join(dir, c.File)
+	os.MkdirAll(filepath.Dir(path), 0o755) // the library creates missing directories without permission bits (os.ModeDir): only root could write into them
 	anyMat := false
 	for _, w := range want {
 		if w.mat != nil {
